@@ -20,7 +20,7 @@ type MOp struct {
 type MapCase struct {
 	Mag  int    `json:"mag,omitempty"` // 0: comparator returns -1/0/+1; 1: the difference; 2: +-MaxInt32
 	Cmp  string `json:"cmp"`           // "nat", "rev", "half" (compare k/2: equivalence classes of two keys)
-	Zero bool   `json:"zero"` // use the zero Map (read-only empty map)
+	Zero bool   `json:"zero"`          // use the zero Map (read-only empty map)
 	Ops  []MOp  `json:"ops"`
 }
 
